@@ -696,7 +696,8 @@ func (e *Engine) stepField(env *Env, x TV, fi int) TV {
 			}
 			p = &np
 		case *Sc:
-			p = &PtrSV{Kind: pkHeap, Ref: pv.T, Root: pt.Elem(), Path: []pathEl{{field: fi}}}
+			p = e.heapPtr(pv.T, pt.Elem())
+			p.Path = []pathEl{{field: fi}}
 		default:
 			sfail("field of %T", x.V)
 		}
@@ -1042,7 +1043,7 @@ func (e *Engine) evalCall(env *Env, c *ast.CallExpr) TV {
 			sfail("asptr: %s is not a pointer type", t)
 		}
 		ref := e.flatten(x.T, x.V)[0]
-		return TV{V: &PtrSV{Kind: pkHeap, Ref: ref, Root: pt.Elem()}, T: t}
+		return TV{V: e.heapPtr(ref, pt.Elem()), T: t}
 	case "baseof":
 		// baseof(s): identity of the backing array of slice s (0 for nil)
 		x := e.eval(env, c.Args[0])
